@@ -159,6 +159,17 @@ Section RowsProofs.
   Proof. intros H. unfold gather. apply map_ext_in. exact H. Qed.
 End RowsProofs.
 
+Lemma firstn_In_sub {A} (a : A) n l : In a (firstn n l) -> In a l.
+Proof.
+  revert l; induction n as [|n IH]; intros [|b t] H; cbn in *; try contradiction.
+  destruct H as [->|H]; [now left|right; now apply IH].
+Qed.
+
+Lemma skipn_In_sub {A} (a : A) n l : In a (skipn n l) -> In a l.
+Proof.
+  revert l; induction n as [|n IH]; intros [|b t] H; cbn in *; try contradiction; auto.
+Qed.
+
 (* ------------------------------------------------------------------ *)
 (* np.unique                                                            *)
 Fixpoint ssorted (l : list Z) : Prop :=
@@ -488,4 +499,358 @@ Section NumericProofs.
     { intros i Hi. rewrite <- HLc. apply positions_spec in Hi. lia. }
     apply car_base_zero_mean; [assumption|assumption|now rewrite G3].
   Qed.
+
+  (* ---------------- agc ---------------- *)
+  Local Notation conv_same := (conv_same R rO radd rmul).
+  Local Notation agc_gain := (agc_gain R rO rI radd rmul rdiv rabs).
+  Local Notation agc_row := (agc_row R rO rI radd rmul rdiv reqb rabs).
+  Local Notation agc := (agc R rO rI radd rmul rdiv reqb rabs).
+  Local Notation vdiv := (vdiv R rdiv).
+  Local Notation vmul := (vmul R rmul).
+
+  Lemma conv_same_length w a : length (conv_same w a) = length a.
+  Proof. unfold Model.conv_same. now rewrite map_length, seq_length. Qed.
+
+  Lemma agc_gain_length w eps row : length (agc_gain w eps row) = length row.
+  Proof. unfold Model.agc_gain. now rewrite map_length, conv_same_length, map_length. Qed.
+
+  Lemma nth_vdiv j r s : length r = length s -> (j < length r)%nat ->
+    nth j (vdiv r s) rO = rdiv (nth j r rO) (nth j s rO).
+  Proof.
+    intros HL Hj. unfold Model.vdiv.
+    rewrite nth_indep with (d' := (fun p => rdiv (fst p) (snd p)) (rO, rO))
+      by (rewrite map_length, combine_length; lia).
+    rewrite (map_nth (fun p : R * R => rdiv (fst p) (snd p)) (combine r s) (rO, rO) j).
+    rewrite combine_nth by assumption. reflexivity.
+  Qed.
+
+  Lemma agc_row_spec w eps row :
+    let o := fst (agc_row w eps row) in
+    let g := snd (agc_row w eps row) in
+    length o = length row /\ length g = length row /\
+    (rsum g = rO -> o = row) /\
+    (rsum g <> rO -> forall j, (j < length row)%nat -> nth j g rO <> rO ->
+       rmul (nth j o rO) (nth j g rO) = nth j row rO).
+  Proof.
+    cbv zeta. unfold Model.agc_row. cbn [fst snd].
+    pose proof (agc_gain_length w eps row) as HG.
+    destruct (reqb (rsum (agc_gain w eps row)) rO) eqn:E.
+    - apply reqb_ok in E. repeat split; auto. intros N. contradiction.
+    - assert (N : rsum (agc_gain w eps row) <> rO).
+      { intros H. apply reqb_ok in H. congruence. }
+      split; [unfold Model.vdiv; rewrite map_length, combine_length; lia|].
+      split; [exact HG|]. split; [intros H; contradiction|].
+      intros _ j Hj Hnz. rewrite nth_vdiv by (auto; lia). field. exact Hnz.
+  Qed.
+
+  Lemma nth_map_rows {A} (F : list R -> A) (dA : A) (x : list (list R)) i :
+    (i < length x)%nat -> nth i (map F x) dA = F (nth i x []).
+  Proof.
+    intros H. rewrite nth_indep with (d' := F []) by (now rewrite map_length). apply map_nth.
+  Qed.
+
+  Lemma agc_spec w eps x i : (i < length x)%nat ->
+    let r := nth i x [] in
+    let o := nth i (fst (agc w eps x)) [] in
+    let g := nth i (snd (agc w eps x)) [] in
+    length (fst (agc w eps x)) = length x /\ length (snd (agc w eps x)) = length x /\
+    length o = length r /\ length g = length r /\
+    (rsum g = rO -> o = r) /\
+    (rsum g <> rO -> forall j, (j < length r)%nat -> nth j g rO <> rO ->
+       rmul (nth j o rO) (nth j g rO) = nth j r rO).
+  Proof.
+    intros Hi. cbv zeta. unfold Model.agc. cbn [fst snd].
+    rewrite !map_length. rewrite !nth_map_rows by assumption.
+    split; [reflexivity|]. split; [reflexivity|]. apply agc_row_spec.
+  Qed.
+
+  (* ---------------- blocks of equal rows (a perfectly aligned common stripe) ---------------- *)
+  Definition all_rows (x : list (list R)) (r : list R) : Prop := forall r', In r' x -> r' = r.
+  Definition all_zero (x : list (list R)) : Prop := forall r', In r' x -> Forall (fun v => v = rO) r'.
+
+  Lemma all_rows_repeat x r : all_rows x r -> x = repeat r (length x).
+  Proof.
+    intros H. induction x as [|a t IH]; cbn; [reflexivity|].
+    rewrite (H a (or_introl eq_refl)). f_equal. apply IH. intros r' Hr'. apply H. now right.
+  Qed.
+
+  Lemma nth_repeat_lt {A} (v dd : A) n k : (k < n)%nat -> nth k (repeat v n) dd = v.
+  Proof. revert k; induction n as [|n IH]; intros [|k] H; cbn; try lia; auto. apply IH. lia. Qed.
+
+  Lemma insert_repeat v n : insert v (repeat v n) = repeat v (S n).
+  Proof.
+    induction n as [|n IH]; cbn; [reflexivity|]. destruct (rleb v v); [reflexivity|].
+    cbn in IH. now rewrite IH.
+  Qed.
+
+  Lemma sort_repeat v n : sort (repeat v n) = repeat v n.
+  Proof.
+    induction n as [|n IH]; cbn; [reflexivity|]. unfold Model.sort in *. cbn. rewrite IH.
+    apply insert_repeat.
+  Qed.
+
+  Lemma median_repeat v n : (0 < n)%nat -> median (repeat v n) = v.
+  Proof.
+    intros Hn. unfold Model.median. rewrite sort_repeat, repeat_length.
+    destruct (Nat.even n) eqn:E.
+    - assert (Hn2 : (2 <= n)%nat) by (destruct n as [|[|n]]; try lia; discriminate).
+      assert (H1 : (n / 2 < n)%nat) by (apply Nat.div_lt; lia).
+      rewrite !nth_repeat_lt by lia. unfold Model.two. field. exact two_neq.
+    - apply nth_repeat_lt. apply Nat.div_lt; lia.
+  Qed.
+
+  Lemma rsum_repeat v n : rsum (repeat v n) = rmul (ofn n) v.
+  Proof. induction n as [|n IH]; cbn; [ring|]. unfold Model.rsum in *. cbn. rewrite IH. ring. Qed.
+
+  Lemma mean_repeat v n : (0 < n)%nat -> mean (repeat v n) = v.
+  Proof.
+    intros Hn. unfold Model.mean. rewrite rsum_repeat, repeat_length.
+    destruct n as [|n]; [lia|]. pose proof (char0 n). field. assumption.
+  Qed.
+
+  Lemma col_repeat j r n : col j (repeat r n) = repeat (nth j r rO) n.
+  Proof. unfold Model.col. induction n as [|n IH]; cbn; [reflexivity|]. now rewrite IH. Qed.
+
+  Lemma map_nth_seq (r : list R) : map (fun j => nth j r rO) (seq 0 (length r)) = r.
+  Proof.
+    apply nth_ext with (d := rO) (d' := rO); [now rewrite map_length, seq_length|].
+    intros k Hk. rewrite map_length, seq_length in Hk.
+    rewrite nth_indep with (d' := (fun j => nth j r rO) O) by (now rewrite map_length, seq_length).
+    rewrite (map_nth (fun j => nth j r rO) (seq 0 (length r)) O k). now rewrite seq_nth.
+  Qed.
+
+  Lemma col_stats_repeat stat r n : (0 < n)%nat -> (forall v, stat (repeat v n) = v) ->
+    col_stats stat (repeat r n) = r.
+  Proof.
+    intros Hn Hs. unfold Model.col_stats.
+    assert (E : ncols (repeat r n) = length r) by (destruct n; [lia|reflexivity]).
+    rewrite E. rewrite <- (map_nth_seq r) at 2. apply map_ext. intros j.
+    now rewrite col_repeat, Hs.
+  Qed.
+
+  Lemma vsub_self r : Forall (fun v => v = rO) (vsub r r).
+  Proof.
+    unfold Model.vsub. induction r as [|a t IH]; cbn; constructor; [ring|exact IH].
+  Qed.
+
+  (* car on a block whose rows are all equal returns zeros, for both operators *)
+  Lemma car_base_kills_common op x r : (op = 0 \/ op = 1)%Z -> x <> [] -> all_rows x r ->
+    all_zero (car_base op x).
+  Proof.
+    intros Hop Hne Hall. rewrite (all_rows_repeat x r Hall).
+    assert (Hn : (0 < length x)%nat) by (destruct x; [congruence|cbn; lia]).
+    unfold Model.car_base. intros r' Hin.
+    destruct Hop as [-> | ->].
+    - change (0 =? 0)%Z with true in Hin. cbv iota in Hin.
+      rewrite col_stats_repeat in Hin by (auto; intros; now apply median_repeat).
+      apply in_map_iff in Hin. destruct Hin as [r0 [<- H0]]. apply repeat_spec in H0. subst.
+      apply vsub_self.
+    - change (1 =? 0)%Z with false in Hin. change (1 =? 1)%Z with true in Hin. cbv iota in Hin.
+      rewrite col_stats_repeat in Hin by (auto; intros; now apply mean_repeat).
+      apply in_map_iff in Hin. destruct Hin as [r0 [<- H0]]. apply repeat_spec in H0. subst.
+      apply vsub_self.
+  Qed.
+
+  (* kfilt body on a block of equal rows, no taper: zeros, whatever the gain control *)
+  Section Kfilt.
+    Variable H : Z -> list (list R) -> list (list R).
+    Variable taper : nat -> nat -> list R.
+    Variable window : Z -> list R.
+    Variable eps : R.
+    (* the zero-phase high-pass along channels returns zeros on a block of equal rows *)
+    Hypothesis H_kills_common : forall b m r, all_rows m r -> all_zero (H b m).
+    Set Default Proof Using "Rth two_neq char0 rleb_translate reqb_ok H_kills_common".
+    Local Notation kfilt_base := (kfilt_base R rO rI radd rmul rdiv reqb rabs H taper window eps).
+
+    Lemma vmul_zero_l z g : Forall (fun v => v = rO) z -> Forall (fun v => v = rO) (vmul z g).
+    Proof.
+      unfold Model.vmul. revert g. induction z as [|a t IH]; intros g Hz; cbn; [constructor|].
+      destruct g as [|b g]; cbn; [constructor|]. inversion Hz; subst. constructor; [ring|].
+      now apply IH.
+    Qed.
+
+    Lemma pad_filter_unpad_zero b pad (xf : list (list R)) r1 : all_rows xf r1 ->
+      all_zero (if (0 <? pad)%nat
+                then firstn (length (H b (if (0 <? pad)%nat
+                                          then rev (firstn pad xf) ++ xf ++ rev (lastn pad xf) else xf))
+                             - 2 * pad)
+                            (skipn pad (H b (if (0 <? pad)%nat
+                                             then rev (firstn pad xf) ++ xf ++ rev (lastn pad xf) else xf)))
+                else H b (if (0 <? pad)%nat
+                          then rev (firstn pad xf) ++ xf ++ rev (lastn pad xf) else xf)).
+    Proof.
+      intros Hr1.
+      assert (H1 : all_rows (if (0 <? pad)%nat
+                             then rev (firstn pad xf) ++ xf ++ rev (lastn pad xf) else xf) r1).
+      { destruct (0 <? pad)%nat; [|exact Hr1]. intros r' Hin.
+        apply in_app_or in Hin. destruct Hin as [Hin|Hin].
+        - apply in_rev in Hin. apply Hr1. eapply firstn_In_sub. exact Hin.
+        - apply in_app_or in Hin. destruct Hin as [Hin|Hin]; [now apply Hr1|].
+          apply in_rev in Hin. apply Hr1. unfold lastn in Hin. eapply skipn_In_sub. exact Hin. }
+      pose proof (H_kills_common b _ r1 H1) as HZ.
+      destruct (0 <? pad)%nat; [|exact HZ]. intros r' Hin. apply HZ.
+      eapply skipn_In_sub. eapply firstn_In_sub. exact Hin.
+    Qed.
+
+    Lemma kfilt_base_kills_common p x r :
+      (k_ntr_tap p = 0%Z \/ (k_ntr_tap p = (-1)%Z /\ (k_ntr_pad p <= 0)%Z)) ->
+      all_rows x r -> all_zero (kfilt_base p x).
+    Proof.
+      intros Htap Hall. unfold Model.kfilt_base. cbv zeta.
+      assert (Htap0 : (if (k_ntr_tap p =? -1)%Z then Z.to_nat (k_ntr_pad p) else Z.to_nat (k_ntr_tap p)) = O).
+      { destruct Htap as [->|[-> Hp]]; cbn; [reflexivity|]. lia. }
+      rewrite Htap0. change (0 <? 0)%nat with false. cbv iota.
+      destruct (k_lagc p <=? 0)%Z; cbn [fst snd].
+      - now apply pad_filter_unpad_zero with r.
+      - intros r' Hin. apply in_map_iff in Hin. destruct Hin as [[z gr] [<- Hp]]. cbn [fst snd].
+        apply vmul_zero_l. apply in_combine_l in Hp. revert z Hp.
+        apply pad_filter_unpad_zero with (r1 := fst (agc_row (window (k_lagc p)) eps r)).
+        unfold Model.agc. cbn [fst].
+        intros r'' Hin. apply in_map_iff in Hin. destruct Hin as [r0 [<- H0]]. now rewrite (Hall r0 H0).
+    Qed.
+  End Kfilt.
+  Set Default Proof Using "Rth two_neq char0 rleb_translate reqb_ok".
+
+  (* ---------------- destripe ---------------- *)
+  Section Destripe.
+    Variable butter1 : list R -> list R.
+    Variable fshift1 : R -> list R -> list R.
+    Variable interp : list Z -> list (list R) -> list (list R).
+    Variable spatial : list (list R) -> list (list R).
+    Local Notation destripe := (destripe R butter1 fshift1 interp spatial).
+    Local Notation spatial_step := (spatial_step R spatial).
+
+    (* the label restriction *)
+    Lemma spatial_step_spec labels x :
+      (forall m, length (spatial m) = length m) -> length labels = length x ->
+      let y := spatial_step labels x in
+      length y = length x /\
+      (forall i, ~ In i (inside_brain labels) -> nth i y ([] : list R) = nth i x []) /\
+      gather [] (inside_brain labels) y = spatial (gather [] (inside_brain labels) x).
+    Proof using.
+      intros Hs HL. cbv zeta. unfold Model.spatial_step. split; [apply scatter_length|]. split.
+      - intros i Hi. now apply scatter_nth_notin.
+      - apply gather_scatter.
+        + apply incr_from_NoDup with O. apply positions_ne_incr.
+        + rewrite Hs. apply gather_length.
+        + intros i Hi. apply inside_brain_spec in Hi. lia.
+    Qed.
+
+    (* rows labelled 3 are not inputs of the spatial filter *)
+    Lemma spatial_input_independent labels x x' :
+      (forall i, In i (inside_brain labels) -> nth i x ([] : list R) = nth i x' []) ->
+      gather ([] : list R) (inside_brain labels) x = gather [] (inside_brain labels) x'.
+    Proof using. intros Hx. now apply gather_ext. Qed.
+
+    (* all channels carry the same waveform once re-aligned: the output is zero *)
+    Lemma destripe_kills_aligned_stripe shifts x u :
+      length shifts = length x ->
+      (forall c, (c < length x)%nat -> fshift1 (nth c shifts rO) (butter1 (nth c x [])) = u) ->
+      (forall m, all_rows m u -> all_zero (spatial m)) ->
+      all_zero (destripe (Some shifts) None x).
+    Proof using.
+      intros HL Hal Hsp. unfold Model.destripe. apply Hsp.
+      intros r' Hin. apply in_map_iff in Hin. destruct Hin as [[s xc] [<- Hp]]. cbn [fst snd].
+      apply In_nth with (d := (rO, [])) in Hp. destruct Hp as [c [Hc Hp]].
+      rewrite combine_length, map_length in Hc.
+      rewrite combine_nth in Hp by (now rewrite map_length).
+      injection Hp as <- <-.
+      rewrite nth_indep with (d' := butter1 []) by (rewrite map_length; lia).
+      rewrite map_nth. apply Hal. lia.
+    Qed.
+  End Destripe.
 End NumericProofs.
+Unset Default Proof Using.
+
+(* ------------------------------------------------------------------ *)
+(* kfilt / fk with a collection = per-group call with the forwarded settings *)
+Section FilterGroups.
+  Variable R : Type.
+  Variables (rO : R).
+  Local Notation zero_row := (zero_row R rO).
+  Local Notation kfilt := (kfilt R rO).
+  Local Notation fk := (fk R rO).
+
+  Lemma kfilt_groups base p coll x out c :
+    (forall q m, length (base q m) = length m) ->
+    coll <> [] -> kfilt base p (Some coll) x = Some out -> In c coll ->
+    length out = length x /\
+    gather [] (positions c coll O) out = base (kfilt_forward p) (gather [] (positions c coll O) x).
+  Proof.
+    intros Hb Hne H Hc. unfold Model.kfilt in H.
+    destruct (grouped_spec _ [] zero_row (base (kfilt_forward p)) (Hb _) coll x out Hne H)
+      as [_ [HL [HG _]]].
+    split; [exact HL|]. now apply HG.
+  Qed.
+
+  Lemma kfilt_forward_settings p :
+    let q := kfilt_forward p in
+    k_lagc q = k_lagc p /\ k_gpu q = k_gpu p /\
+    k_butter q = (if (k_butter p =? -1)%Z then 0%Z else k_butter p) /\
+    k_ntr_pad q = 0%Z /\ k_ntr_tap q = (-1)%Z.
+  Proof. cbv zeta. unfold kfilt_forward, kfilt_defaults. cbn. repeat split. Qed.
+
+  Lemma fk_groups base (p : fk_params) coll x out c :
+    (forall q m, length (base q m) = length m) ->
+    coll <> [] -> fk base p (Some coll) x = Some out -> In c coll ->
+    length out = length x /\
+    gather [] (positions c coll O) out = base p (gather [] (positions c coll O) x).
+  Proof.
+    intros Hb Hne H Hc. unfold Model.fk in H.
+    destruct (grouped_spec _ [] zero_row (base (fk_forward p)) (Hb _) coll x out Hne H)
+      as [_ [HL [HG _]]].
+    split; [exact HL|]. now apply HG.
+  Qed.
+End FilterGroups.
+
+(* ------------------------------------------------------------------ *)
+(* ADC delay table: the k-th channel of an ADC (in channel order) gets k / n_cycles *)
+Lemma adc_id_ver ver c : adc_id ver c = adc_id (if (ver =? 2)%Z then 2 else 1)%Z c.
+Proof. unfold adc_id, adc_params. destruct (ver =? 2)%Z; reflexivity. Qed.
+
+Lemma adc_shift_num_ver ver c :
+  adc_shift_num ver c = adc_shift_num (if (ver =? 2)%Z then 2 else 1)%Z c.
+Proof.
+  unfold adc_shift_num. f_equal. f_equal. rewrite <- (adc_id_ver ver c).
+  apply filter_ext. intros c'. now rewrite <- (adc_id_ver ver c').
+Qed.
+
+Definition adc_ok (ver c : Z) : bool :=
+  let ac := fst (adc_params ver) in
+  ((adc_shift_num ver c =? (c mod (2 * ac)) / 2) && (adc_shift_num ver c <? ac)
+   && (ac <=? snd (adc_params ver)))%Z.
+
+Lemma adc_sweep : forallb (adc_ok 1) (zrange 384) = true /\ forallb (adc_ok 2) (zrange 384) = true.
+Proof. split; vm_compute; reflexivity. Qed.
+
+Lemma adc_closed_form ver c : (0 <= c < 384)%Z ->
+  let ac := fst (adc_params ver) in
+  (adc_shift_num ver c = (c mod (2 * ac)) / 2 /\ 0 <= adc_shift_num ver c < ac /\
+   ac <= snd (adc_params ver))%Z.
+Proof.
+  intros Hc. cbv zeta. rewrite adc_shift_num_ver.
+  assert (Hp : adc_params ver = adc_params (if (ver =? 2)%Z then 2 else 1)%Z).
+  { unfold adc_params. destruct (ver =? 2)%Z; reflexivity. }
+  rewrite Hp. destruct adc_sweep as [S1 S2].
+  assert (Hin : In c (zrange 384)) by (apply in_zrange; lia).
+  assert (H : adc_ok (if (ver =? 2)%Z then 2 else 1)%Z c = true).
+  { destruct (ver =? 2)%Z; [exact (proj1 (forallb_forall _ _) S2 c Hin)
+                           |exact (proj1 (forallb_forall _ _) S1 c Hin)]. }
+  unfold adc_ok in H. apply andb_true_iff in H. destruct H as [H H3].
+  apply andb_true_iff in H. destruct H as [H1 H2].
+  apply Z.eqb_eq in H1. apply Z.ltb_lt in H2. apply Z.leb_le in H3.
+  split; [exact H1|]. split; [|exact H3]. split; [|exact H2].
+  unfold adc_shift_num. lia.
+Qed.
+
+(* ------------------------------------------------------------------ *)
+(* the hypotheses on the carrier, bundled: a field (Leibniz equality) of
+   characteristic 0 whose order test is invariant under translation and whose
+   equality test is exact — every ordered field, in particular the reals *)
+Definition ordered_field (R : Type) (rO rI : R) (radd rmul rsub rdiv : R -> R -> R)
+           (ropp rinv : R -> R) (rleb reqb : R -> R -> bool) : Prop :=
+  field_theory rO rI radd rmul rsub ropp rdiv rinv (@eq R) /\
+  radd rI rI <> rO /\
+  (forall n, of_nat R rO rI radd (S n) <> rO) /\
+  (forall a b m, rleb (rsub a m) (rsub b m) = rleb a b) /\
+  (forall a b, reqb a b = true <-> a = b).
